@@ -234,6 +234,9 @@ fn run_fresh(plan: &Plan, env: &Env, rec: &mut Rec) {
         Op::PokCommit | Op::PokTsGenerate => vec![b"m".to_vec(), sig.clone()],
         _ => vec![sk.clone(), eight(2), eight(3)],
     };
+    // everything any call of this run exposes, across all its sessions: caller threads of one session end before those of the
+    // next are created (a thread-per-request service), and nothing may repeat from one generation of threads to the next
+    let mut seen: BTreeMap<Vec<u8>, (usize, &'static str, usize, usize)> = BTreeMap::new();
     for (si, st) in plan.steps.iter().enumerate().filter(|(_, s)| s.k == "session") {
         let (n, per) = (st.arg(0).clamp(2, 4) as usize, st.arg(1).clamp(1, 3) as usize);
         let build = || -> Vec<Vec<Call>> { (0..n).map(|_| (0..per).map(|_| Call { lib, g, op, args: args.clone(), clock: Some(kernel::sim::EPOCH_NS), route: 0 }).collect()).collect() };
@@ -255,7 +258,6 @@ fn run_fresh(plan: &Plan, env: &Env, rec: &mut Rec) {
         }
         for (how, outs) in sets {
             // everything a call returns is an ephemeral here (ciphertext points and masks, commitments, secrets, keys, challenges, share values)
-            let mut seen: BTreeMap<Vec<u8>, (usize, usize)> = BTreeMap::new();
             for (t, os) in outs.iter().enumerate() {
                 for (r, o) in os.iter().enumerate() {
                     rec.expect("C20", "randomized-call-succeeds", o.is_ok(), || format!("{:?} {} g={} | thread {} call #{}: {}", op, how, g.name(), t, r, brief(o)));
@@ -263,10 +265,11 @@ fn run_fresh(plan: &Plan, env: &Env, rec: &mut Rec) {
                         for part in parts {
                             // a value is "exposed" when it is long enough to be a point or a scalar; whole-output equality covers the rest
                             for chunk in part.chunks(32).filter(|c| c.len() == 32 && c.iter().any(|b| *b != 0)) {
-                                let prev = seen.insert(chunk.to_vec(), (t, r));
-                                let clash = prev.filter(|p| *p != (t, r));
+                                let me = (si, how, t, r);
+                                let prev = seen.insert(chunk.to_vec(), me);
+                                let clash = prev.filter(|p| *p != me);
                                 rec.expect("C20", "ephemerals-never-repeat", clash.is_none() || is_public_constant(chunk, &pk, &sk, &sig, &args), || {
-                                    format!("{:?} {} g={} | a 32-byte run of the output of thread {} call #{} equals one of thread {:?}: {}", op, how, g.name(), t, r, clash, crate::env::short(chunk))
+                                    format!("{:?} {} g={} | a 32-byte run of the output of thread {} call #{} (session {}) equals one of (session, mode, thread, call) {:?}: {}", op, how, g.name(), t, r, si, clash, crate::env::short(chunk))
                                 });
                             }
                         }
